@@ -297,7 +297,7 @@ impl Check for DirectCheck {
         "C19/aco-components".into()
     }
     fn classes(&self) -> &'static [&'static str] {
-        &["zero matrix", "extreme trail values", "with update", "n >= 5"]
+        &["zero matrix", "extreme trail values", "with update", "n >= 5", "the generator first replays a script of edge-value words (derived from the seed)"]
     }
     fn oracle(&self, c: &DirectCase) -> Outcome {
         let mut cl = 0;
@@ -313,6 +313,9 @@ impl Check for DirectCheck {
         if c.n >= 5 {
             cl |= 8;
         }
+        if !crate::fixtures::script_of(c.seed).is_empty() {
+            cl |= 16;
+        }
         Outcome::new(cl & 3 != 0, cl, direct_oracle(c))
     }
 }
@@ -327,7 +330,7 @@ fn direct_oracle(c: &DirectCase) -> Result<(), Failure> {
         1 => vec![],
         k => (0..c.ants + 2 + (k as usize - 2) * (c.ants + 3)).map(|_| Individual::new((0..n).collect(), 1.0.try_into().unwrap())).collect(),
     };
-    let mut st = state_with::<TspP>(vec![prior], c.seed);
+    let mut st = crate::fixtures::state_with_scripted::<TspP>(vec![prior], c.seed);
     let gen = AcoGeneration::new::<TspP>(c.ants, c.alpha, c.beta, 1.0);
     gen.init(&problem, &mut st).map_err(|e| Failure::new("C19 init", format!("{e}")))?;
     {
